@@ -61,6 +61,7 @@ fn dispatch(line: &str) -> String {
         "lat" => samp::lat(&toks),
         "pure" => samp::pure(&toks),
         "multi" => multi::line(&toks),
+        "manyv" => multi::manyv(&toks),
         "zig" => zig_line(),
         "ping" => "pong".to_string(),
         other => format!("unknown:{}", other),
